@@ -353,7 +353,8 @@ def main(argv: List[str]) -> int:
     smallp = [d for d in dsp if len(d) <= 5] or dsp
 
     def add(kind, dd, sched=None, allow=False):
-        items.append({'tid': len(items) + 1, 'kind': kind, 'docs': dd, 'allows': [allow] * len(dd), 'sched': sched or []})
+        allows = list(allow) if isinstance(allow, (list, tuple)) else [allow] * len(dd)
+        items.append({'tid': len(items) + 1, 'kind': kind, 'docs': dd, 'allows': allows, 'sched': sched or []})
     use = scheds if not quick else r.sample(scheds, min(len(scheds), 260))
     for k, s in enumerate(use):
         a = small[k % len(small)]
@@ -364,6 +365,9 @@ def main(argv: List[str]) -> int:
             a, b = smallp[k % len(smallp)], smallp[(k * 7 + 1) % len(smallp)]
             add('schedule', [a, b], s, allow=True)
             continue
+        if k % 4 == 1:                       # the two calls carry DIFFERENT options: each result follows its own call's
+            add('schedule', [smallp[k % len(smallp)], b], s, allow=[True, False])
+            continue
         add('schedule', [a, b], s)
     for k in range(40 if quick else 600):
         n = 3 + k % 2
@@ -372,6 +376,9 @@ def main(argv: List[str]) -> int:
             dd[1] = dd[0]
         if k % 3 == 2:
             add('threads', [dsp[(k + j * 5) % len(dsp)] for j in range(n)], allow=True)
+            continue
+        if k % 3 == 1:
+            add('threads', [dsp[(k + j * 5) % len(dsp)] if j % 2 == 0 else dd[j] for j in range(n)], allow=[j % 2 == 0 for j in range(n)])
             continue
         add('threads', dd)
     for k in range(60 if quick else 800):
